@@ -5,17 +5,79 @@ the code-shaped models and the property-shaped specs at `Rat` on the same case. 
 itself injects floats (`1./size`, filter memory `0.`, designed low-pass coefficients) the case is
 either in the *exact regime* (power-of-two sizes, dyadic samples: binary floating point is exact)
 and compared with tolerance 0, or in the *float regime* and compared with tolerance 1e-9.
+
+Besides the bulk of short cases there is a *long-run stream* (`gen_long`): per tool a few inputs of several
+thousand samples, inputs of 2**k - 1, 2**k, 2**k + 1 samples (k = 8, 10, 12; more in the thorough tier) and one
+input beyond 2**16 samples, for
+state that only misbehaves after many iterations (periodic re-normalisation, wrapping counters, re-summed
+buffers, drift corrections, block-wise processing).  Integer / dyadic data and power-of-two sizes keep the
+impl's float arithmetic exact, so these are compared with tolerance 0 too.  The driver evaluates the
+specification of an input of more than 64 samples through its one-pass recursion (`...SpecRec`, proved
+equal to the closed form for all inputs: `ALV.Props.C20.rat_spec_recursions`).
 """
 import math
+import os
 from fractions import Fraction as F
 
 import common
-from common import enc, encl, dec, decl, close, close_list, err_kind
+from common import close, close_list, err_kind
+
+# Exact number transport (common.enc / common.dec) with fast paths: the long-run stream moves hundreds of
+# thousands of samples.  Same encodings as common.enc (int, or "p/q" in lowest terms; floats at their exact
+# binary value); floats and the decoder are memoised (small value sets; Fractions are immutable).
+_ENC, _DEC = {}, {}
+
+
+def enc(x):
+    t = type(x)
+    if t is int:
+        return x
+    if t is F:
+        d = x.denominator
+        return x.numerator if d == 1 else "%d/%d" % (x.numerator, d)
+    if t is float:
+        try:
+            return _ENC[x]
+        except KeyError:     # (NaN never hits the memo)
+            if len(_ENC) > 200000:
+                _ENC.clear()
+            j = _ENC[x] = common.enc(x)
+            return j
+    return common.enc(x)
+
+
+def dec(j):
+    try:
+        return _DEC[j]
+    except KeyError:
+        if len(_DEC) > 200000:
+            _DEC.clear()
+        v = common.dec(j)
+        if type(j) is not bool and v == v:
+            _DEC[j] = v
+        return v
+    except TypeError:
+        return common.dec(j)
+
+
+def encl(xs):
+    return [enc(x) for x in xs]
+
+
+def decl(js):
+    return [dec(j) for j in js]
+
 
 ID = "C20"
 RULE = ("structured random cases per tool (sizes/lags 1..9 + larger, all clip limit combinations incl. None and "
         "low>high, hysteresis x first_sign grids with samples placed on / next to the thresholds, (max_delta, step) "
-        "pairs with samples placed on / next to the decision points) plus exhaustive tiny universes; a case is "
+        "pairs with samples placed on / next to the decision points) plus exhaustive tiny universes plus a long-run "
+        "stream (per tool and strategy inputs of 255..257, 1023..1025, 4095..4097 samples, one of 5001..6500, one of 8193..9000 and - "
+        "maverage, accumulate, zcross, unwrap - one beyond 65536 samples; the thorough tier adds 8191..8193, 16383..16385, "
+        "up to 20000, 44099/44101/48001, 65535..65537, up to 100000, also for clip, and an envelope input beyond 65536; amdf stays "
+        "below 20000; "
+        "dense / sparse / impulse / constant / saw / block / quiet-interval / random-walk / wrapped-ramp / plateau shapes, integer "
+        "or dyadic with power-of-two sizes so that the comparison stays exact, a few float-regime ones); a case is "
         "non-trivial when the input is non-empty and (clip: a sample is actually clipped or the error is raised; "
         "zcross: at least one crossing or a non-zero hysteresis/first_sign; unwrap: at least one sample changed; "
         "others: output not identically zero); distinct = distinct JSON case")
@@ -26,6 +88,10 @@ TRUSTED = [
     "the ZFilter-built strategies are modelled by a self-contained direct-form loop (frun); that LinearFilter.__call__ "
     "generates this loop for every coefficient shape is property C04",
     "envelope: the low-pass coefficients are read from the impl's own lowpass(cutoff) object (its design is property C13)",
+    "envelope on inputs of more than 150 samples: the same polymorphic Lean model is run at Float instead of Rat "
+    "(exact rationals of a recursive filter grow by ~50 bits per sample); compared with tolerance 1e-9",
+    "inputs of more than 64 samples: the driver evaluates the specification through its one-pass recursion, "
+    "proved equal to the closed form (theorems mavgSpecRec_eq_spec .. unwrapSpecRec_eq_spec, rat_spec_recursions)",
 ]
 ASSUMPTIONS = [
     "size >= 1 (1./0 raises), lag >= 0 with zero=0 or lag >= 1, step > 0, hysteresis >= 0 for the closed zcross "
@@ -89,6 +155,16 @@ def _len(rng, tier):
 def _is_dyadic(x):
     x = F(x)
     return x.denominator & (x.denominator - 1) == 0
+
+
+def _is_dyadic_j(j):
+    """`_is_dyadic(dec(j))` without building a Fraction (long inputs)"""
+    if isinstance(j, int):
+        return True
+    if isinstance(j, str) and "/" in j:
+        q = int(j.split("/", 1)[1])          # enc() writes lowest terms
+        return q & (q - 1) == 0
+    return _is_dyadic(dec(j))
 
 
 def _pow2(n):
@@ -220,6 +296,231 @@ def gen_unwrap(rng, tier):
     return {"entry": "unwrap", "max_delta": enc(md), "step": enc(step), "xs": _E(xs), "ints": ints}
 
 
+# ----------------------------------------------------------------------------------------------
+# long-run stream: state that only misbehaves after many iterations
+# ----------------------------------------------------------------------------------------------
+EDGES = [255, 256, 257, 1023, 1024, 1025, 4095, 4096, 4097]
+EDGES_THOROUGH = [8191, 8192, 8193, 16383, 16384, 16385]
+EDGES_HUGE = [65535, 65536, 65537]       # 16-bit counters; 44100 / 48000: "once per second"
+ENV_FLOAT_LEN = 150          # envelope: longer inputs go through the Float instance of the model
+LONG = 64                    # the driver's `longLen`; the shrinker switches strategy above it
+
+
+def _long_lengths(rng, tier, huge=0):
+    """[(length, force_dense)]: around the powers of two, plus several thousand samples (one input beyond
+    2**12, one beyond 5000, one beyond 2**13); `huge` >= 1 (tools whose model and specification cost O(1) per sample): one input
+    beyond 2**16; in the thorough tier also one (huge = 1) or several (huge = 2) around 2**16 and the usual
+    sample rates"""
+    ls = [(n, _pow2(n - 1)) for n in EDGES]           # 2**k + 1 samples: always a dense input
+    ls += [(rng.randint(5001, 6500), True), (rng.randint(8193, 9000), False)]
+    if tier != "quick":
+        ls.append((rng.randint(2000, 4000), False))
+    if huge and tier == "quick":
+        ls.append((rng.randint(65537, 70000), True))
+    if tier != "quick":
+        ls += [(n, _pow2(n - 1)) for n in EDGES_THOROUGH]
+        ls += [(rng.randint(8200, 20000), i == 0) for i in range(4)]
+        if huge:
+            ls += [(65537, True), (44101, True)]
+        if huge > 1:
+            ls += [(65535, False), (65536, False), (44099, False), (48001, True), (rng.randint(70000, 100000), True)]
+    return ls
+
+
+HUGE = 60000                 # inputs beyond this carry integers only (cheap transport, exact anyway)
+
+
+def _long_vals(rng, n, shape):
+    """integer / dyadic samples (|numerator| <= 8, one denominator 2**e per input)"""
+    den = 2 ** rng.choice([0, 0, 0, 1, 2, 3]) if n < HUGE else 1
+    if shape == "dense":          # almost no zero: every position carries information
+        pool = [v for v in range(-8, 9) if v] + [0]
+        return [F(rng.choice(pool), den) for _ in range(n)]
+    if shape == "impulse":        # a few samples at the start (and one anywhere), then silence
+        xs = [F(0)] * n
+        for i in range(min(n, rng.randint(1, 3))):
+            xs[i] = F(rng.choice([-8, -3, -1, 1, 2, 5, 8]), den)
+        if rng.random() < 0.5:
+            xs[rng.randrange(n)] = F(rng.choice([-7, -1, 1, 4]), den)
+        return xs
+    if shape == "const":
+        return [F(rng.choice([-8, -5, -1, 1, 3, 8]), den)] * n
+    if shape == "sparse":
+        return [F(rng.randint(-8, 8), den) if rng.random() < 1 / 64. else F(0) for _ in range(n)]
+    if shape == "saw":
+        a, m = rng.choice([1, 2, 3, 5, 7]), rng.choice([5, 16, 17, 31])
+        return [F((i * a) % m - m // 2, den) for i in range(n)]
+    if shape == "blocks":         # constant blocks of 2**k samples
+        k = 2 ** rng.randint(4, 10)
+        vs = [F(rng.randint(-8, 8), den) for _ in range(n // k + 1)]
+        return [vs[i // k] for i in range(n)]
+    raise ValueError(shape)
+
+
+SHAPES = ["dense", "dense", "dense", "impulse", "const", "sparse", "saw", "blocks"]
+
+
+def _kind(rng, c, allow_ints=True):
+    """how the samples reach the impl: Fraction (default), int, or binary float (all exact)"""
+    r = rng.random()
+    nums = list(c["xs"]) + [c[k] for k in ("low", "high", "hysteresis", "first_sign", "max_delta", "step", "zero")
+                            if c.get(k) is not None]
+    if r < 0.3 and allow_ints and all(isinstance(v, int) for v in nums):
+        c["ints"] = True
+    elif r < 0.6 and all(_is_dyadic_j(v) for v in nums):
+        c["floats"] = True
+    return c
+
+
+def gen_long(rng, tier):
+    cases = []
+
+    def add(c, shape):
+        c["stream"] = "long:" + shape
+        cases.append(c)
+
+    # maverage: all three strategies, power-of-two sizes (exact floats); a dyadic `zero` history now and then
+    # (the models cost O(size) exact operations per sample: large windows only in the thorough tier)
+    # (size 1 is degenerate - the mean is the newest sample - and rare here)
+    sizes = [2, 8, 1, 16, 4, 2, 8, 32, 4, 16, 2, 4]
+    big = [64, 128, 256, 1024] if tier != "quick" else []
+    for i, (n, dense) in enumerate(_long_lengths(rng, tier, huge=2)):
+        shape = "dense" if dense else rng.choice(SHAPES)
+        size = sizes[(i + rng.randrange(3)) % len(sizes)] if n < HUGE else rng.choice([2, 4])
+        zero = rng.choice([F(0), F(0), F(0), F(3), F(-5, 2), F(1, 4)] if n < HUGE else [F(0), F(3)])
+        c = {"entry": "maverage", "size": size, "zero": enc(zero), "xs": _E(_long_vals(rng, n, shape))}
+        if rng.random() < 0.5:
+            c[rng.choice(["floats", "ints"])] = True
+            if c.get("ints") and not all(isinstance(v, int) for v in c["xs"]):
+                del c["ints"]
+        add(c, shape)
+    for size in big:
+        n = rng.choice([2049, 4097, rng.randint(2049, 4200)])
+        add({"entry": "maverage", "size": size, "zero": enc(rng.choice([F(0), F(2)])),
+             "xs": _E(_long_vals(rng, n, "dense")), "floats": True}, "dense")
+    # float regime on long runs (window sizes that are no power of two, thirds): tolerance 1e-9, the round-off
+    # of the running updates stays many orders below it
+    for n in [1025, 4097, rng.randint(5001, 8200)]:
+        c = {"entry": "maverage", "size": rng.choice([3, 5, 6, 7, 10, 12] + ([100] if tier != "quick" else [])),
+             "zero": enc(rng.choice([F(0), F(1, 3)])), "xs": _E(_long_vals(rng, n, "dense"))}
+        if rng.random() < 0.5:
+            c["floats"] = True
+        add(c, "dense")
+    for n in [1025, rng.randint(4097, 8200)]:
+        add({"entry": "amdf", "lag": rng.choice([1, 3, 10]), "size": rng.choice([3, 5, 10]), "zero": 0,
+             "xs": _E(_long_vals(rng, n, "dense"))}, "dense")
+    for n in [1025, rng.randint(4097, 8200)]:
+        add({"entry": "accumulate", "xs": _E([x / 3 for x in _long_vals(rng, n, "dense")]), "ints": False,
+             "zmode": "default"}, "dense")
+    # accumulate: all four strategies
+    for n, dense in _long_lengths(rng, tier, huge=2):
+        shape = "dense" if dense else rng.choice(SHAPES)
+        c = {"entry": "accumulate", "xs": _E(_long_vals(rng, n, shape)), "ints": False,
+             "zmode": rng.choice(["int0", "default", "frac0"])}
+        add(_kind(rng, c), shape)
+    # amdf: lag filter + deque moving average
+    for n, dense in _long_lengths(rng, tier):
+        shape = "dense" if dense else rng.choice(SHAPES)
+        lag = rng.choice([1, 1, 2, 3, 7, 16, 64] + ([100, 255] if tier != "quick" else []) +
+                         ([1000, 1024] if tier != "quick" and n < 8200 else []))
+        c = {"entry": "amdf", "lag": lag, "size": rng.choice([1, 2, 4, 8, 16, 64]),
+             "zero": enc(rng.choice([F(0), F(0), F(3, 2)])), "xs": _E(_long_vals(rng, n, shape))}
+        if rng.random() < 0.4:
+            c["floats"] = True
+        add(c, shape)
+    # envelope (float regime, Float instance of the model)
+    # (an input beyond 2**16 costs ~10 s here - six filter runs, float transport - so: thorough tier only)
+    for n, dense in _long_lengths(rng, tier, huge=0 if tier == "quick" else 1):
+        shape = "dense" if dense else rng.choice(SHAPES)
+        c = {"entry": "envelope", "cutoff": rng.choice([math.pi / 512, 0.05, 0.5, rng.uniform(0.01, 3.0)]),
+             "xs": _E(_long_vals(rng, n, shape)),
+             "lp": rng.choice(["default", "default", "default", "pole", "z", "pole_exp", "z_exp"])}
+        add(c, shape)
+    # clip: stateless per sample - block-wise processing would show at block boundaries (beyond 2**16: thorough tier)
+    for n, dense in _long_lengths(rng, tier, huge=0 if tier == "quick" else 2):
+        shape = "dense" if dense else rng.choice(SHAPES)
+        combo = rng.choice(["both", "both", "low", "high", "none", "default", "equal"])
+        a, b = sorted([F(rng.randint(-6, 6), 2 if n < HUGE else 1), F(rng.randint(-6, 6), 2 if n < HUGE else 1)])
+        low, high = {"both": (a, b), "low": (a, None), "high": (None, b), "none": (None, None),
+                     "default": (F(-1), F(1)), "equal": (a, a)}[combo]
+        c = {"entry": "clip", "low": None if low is None else enc(low), "high": None if high is None else enc(high),
+             "xs": _E(_long_vals(rng, n, shape)),
+             "route": "default" if combo == "default" else rng.choice(["args", "stream"])}
+        add(_kind(rng, c, allow_ints=False), shape)
+    # zcross: dense crossings, and a sign that has to be remembered through long quiet intervals
+    for n, dense in _long_lengths(rng, tier, huge=2):
+        shape = ("dense" if dense else "quiet" if _pow2(n) and n >= 1024 else
+                 rng.choice(["dense", "quiet", "quiet", "sparse", "saw", "blocks"]))
+        h = rng.choice([F(0), F(0), F(1), F(1, 2), F(2), F(3)] if n < HUGE else [F(0), F(1), F(2), F(3)])
+        fs = rng.choice([F(0), F(0), F(1), F(-1)])
+        if shape == "quiet":
+            inside = [v for v in (F(0), h, -h, h / 2, -h / 2)]
+            out_p, out_n = [h + 1, h + F(1, 2), 2 * h + 3], [-h - 1, -h - F(1, 2), -2 * h - 3]
+            xs, sign = [], rng.choice([1, -1])
+            while len(xs) < n:
+                xs.append(rng.choice(out_p if sign > 0 else out_n))
+                gap = rng.choice([rng.randint(1000, 1100), rng.randint(1, 40), rng.randint(250, 260), n // 3,
+                                  rng.randint(4090, 4100)])
+                xs.extend(rng.choice(inside) if rng.random() < 0.2 else F(0) for _ in range(gap))
+                if rng.random() < 0.8:
+                    sign = -sign
+            xs = xs[:n - 1] + [rng.choice(out_p if sign > 0 else out_n)] if n > 1 else xs[:n]
+        else:
+            xs = _long_vals(rng, n, shape)
+        c = {"entry": "zcross", "hysteresis": enc(h), "first_sign": enc(fs), "xs": _E(xs), "ints": False, "route": "kw"}
+        add(_kind(rng, c), shape)
+    # unwrap: random walk with many large jumps; wrapped ramp (typical use); one early jump then a plateau
+    for n, dense in _long_lengths(rng, tier, huge=2):
+        shape = "walk" if dense else rng.choice(["walk", "walk", "ramp", "plateau", "saw"])
+        step = rng.choice([F(1), F(2), F(2), F(3), F(1, 2), F(7), F(5, 3)])
+        md = rng.choice([step / 2, step / 2, step / 4, step, F(0), step / 2 + F(1, 8)])
+        if n >= HUGE:              # integer walk
+            step = F(rng.choice([2, 3, 7, 16]))
+            md = F(rng.choice([int(step / 2), int(step), 0, 1]))
+            xs, cur = [], F(rng.randint(-8, 8))
+            for _ in range(n):
+                xs.append(cur)
+                r = rng.random()
+                if r < 0.5:
+                    d = F(rng.choice([-1, 0, 1, int(md), -int(md), int(md) + 1, -int(md) - 1]))
+                elif r < 0.85:
+                    d = rng.randint(-3, 3) * step + rng.choice([-1, 0, 0, 1, int(step) // 2])
+                else:
+                    d = F(rng.randint(-40, 40))
+                cur += d
+                if abs(cur) > 99:
+                    cur -= 99 * (1 if cur > 0 else -1)
+        elif shape == "walk":
+            xs, cur = [], F(rng.randint(-8, 8), 4)
+            for _ in range(n):
+                xs.append(cur)
+                r = rng.random()
+                if r < 0.4:
+                    d = F(rng.randint(-8, 8), 16)
+                elif r < 0.6:
+                    d = rng.choice([md, -md, md + F(1, 16), -md - F(1, 16), md - F(1, 16)])
+                elif r < 0.85:
+                    d = rng.randint(-3, 3) * step + rng.choice([F(0), step / 2, -step / 2, F(1, 8), -F(1, 8)])
+                else:
+                    d = F(rng.randint(-40, 40), 8)
+                cur += d
+                if abs(cur) > 64:          # keep the numbers short
+                    cur -= 64 * (1 if cur > 0 else -1)
+        elif shape == "ramp":      # a line wrapped into [-step/2, step/2): unwrap must give the line back
+            a = rng.choice([F(1, 8), F(3, 16), -F(1, 4), F(5, 16)]) * step
+            xs = [(i * a + step / 2) % step - step / 2 for i in range(n)]
+        elif shape == "plateau":   # the correction of an early jump has to survive a long flat stretch
+            xs = [F(0)] * min(n, rng.randint(1, 3))
+            lvl = rng.choice([2, 3, -2, 5]) * step + rng.choice([F(0), F(1, 8)])
+            while len(xs) < n:
+                xs.append(lvl + (F(rng.randint(-1, 1), 16) if rng.random() < 0.1 else 0))
+        else:
+            xs = [x * step / 4 for x in _long_vals(rng, n, "saw")]
+        c = {"entry": "unwrap", "max_delta": enc(md), "step": enc(step), "xs": _E(xs), "ints": False}
+        add(_kind(rng, c), shape)
+    return cases
+
+
 GENS = [(gen_maverage, 18), (gen_accumulate, 10), (gen_amdf, 12), (gen_envelope, 6), (gen_clip, 16),
         (gen_zcross, 20), (gen_unwrap, 18)]
 
@@ -273,6 +574,10 @@ def _maybe_floats(rng, c):
 
 
 def generate(rng, tier, scale=1):
+    # The driver (a child process, environment inherited) now handles requests of up to 10**5 samples: keep
+    # the Lean runtime's allocator (mimalloc) from returning freed pages to the OS between requests - re-faulting
+    # them costs more than the computation on a loaded host.  Allocator tuning only (peak ~50 MB).
+    os.environ.setdefault("MIMALLOC_PURGE_DELAY", "-1")
     total = (8000 if tier == "quick" else 60000) * scale
     cases = []
     if scale == 1:
@@ -280,6 +585,7 @@ def generate(rng, tier, scale=1):
         for combo in ["both", "low", "high", "none", "default", "bad", "equal"]:
             for _ in range(6):
                 cases.append(gen_clip(rng, tier, combo))
+    cases.extend(gen_long(rng, tier))        # same amount in the search's fresh batch (scale 4), new inputs
     wsum = sum(w for _, w in GENS)
     for g, w in GENS:
         for _ in range(total * w // wsum):
@@ -393,9 +699,15 @@ def impl(c):
 
 
 def request(c):
-    r = {k: v for k, v in c.items() if k not in ("ints", "floats", "route", "zmode", "cutoff", "lp")}
+    r = {k: v for k, v in c.items() if k not in ("ints", "floats", "route", "zmode", "cutoff", "lp", "stream")}
     if c["entry"] == "envelope":
         f = _lowpass(c)
+        if len(c["xs"]) > ENV_FLOAT_LEN:       # long input: the model runs at Float (see TRUSTED)
+            r["entry"] = "envelope_float"
+            a0 = float(list(f.denominator)[0])
+            r["b"] = [enc(float(x) / a0) for x in f.numerator]
+            r["a"] = [enc(float(x) / a0) for x in list(f.denominator)[1:]]
+            return r
         den = [F(x) for x in f.denominator]
         num = [F(x) for x in f.numerator]
         a0 = den[0]
@@ -412,7 +724,7 @@ def exact_regime(c):
     e = c["entry"]
     if e in ("clip", "zcross", "unwrap"):
         return True
-    dy = all(_is_dyadic(dec(x)) for x in c["xs"]) and _is_dyadic(dec(c.get("zero", 0)))
+    dy = all(_is_dyadic_j(x) for x in c["xs"]) and _is_dyadic_j(c.get("zero", 0))
     if e in ("maverage", "amdf"):
         return dy and _pow2(c["size"])
     if e == "accumulate":
@@ -420,18 +732,58 @@ def exact_regime(c):
     return False
 
 
+_DIFF_AT = None       # a list while `_first_bad_output` runs: output positions where impl and Lean part
+
+
 def _cmp(out, kind, name, got, want, tol):
-    if isinstance(got, dict) or isinstance(want, dict):
-        if got != want:
-            out.append((kind, "%s: impl=%s lean=%s" % (name, _s(got), _s(want))))
+    if got == want:          # identical canonical encodings (the common case; long lists are not decoded)
         return
-    if not close_list(decl(got), decl(want), tol):
+    if isinstance(got, dict) or isinstance(want, dict):
         out.append((kind, "%s: impl=%s lean=%s" % (name, _s(got), _s(want))))
+        return
+    i = _diff_index(got, want, tol)
+    if i is not None:
+        if _DIFF_AT is not None:
+            _DIFF_AT.append(i)
+        where = ""
+        if len(got) != len(want):
+            where = " [lengths %d / %d]" % (len(got), len(want))
+        elif len(got) > 12:
+            where = " [first difference at output #%d of %d: impl=%s lean=%s]" % (i, len(got), got[i], want[i])
+        out.append((kind, "%s: impl=%s lean=%s%s" % (name, _s(got), _s(want), where)))
 
 
 def _s(x):
     s = repr(x)
     return s if len(s) < 160 else s[:160] + "..."
+
+
+def _flt(j):
+    """float value of an encoded number (int / int of big integers is correctly rounded)"""
+    if isinstance(j, int):
+        return float(j)
+    p, _, q = j.partition("/")
+    return int(p) / int(q) if q else float(j)
+
+
+def _diff_index(got, want, tol):
+    """None when the two encoded lists agree (within tol), else the first position where they part (the
+    common length when one is a proper prefix of the other); only differing encodings are decoded, and in
+    the tolerance regime pairs that agree with a wide margin in float arithmetic are accepted without
+    building Fractions (the exact test decides the rest)"""
+    ftol = float(tol) * 0.99
+    for i, (a, b) in enumerate(zip(got, want)):
+        if a != b:
+            if ftol:
+                try:
+                    fa, fb = _flt(a), _flt(b)
+                    if abs(fa - fb) <= ftol * (1 + abs(fb)):      # also False for NaN / inf
+                        continue
+                except (ValueError, OverflowError, ZeroDivisionError):
+                    pass
+            if not close(dec(a), dec(b), tol):
+                return i
+    return None if len(got) == len(want) else min(len(got), len(want))
 
 
 def compare(c, io, drv):
@@ -442,7 +794,8 @@ def compare(c, io, drv):
         for s in ("deque", "recursive", "fir"):
             _cmp(out, "model", "maverage." + s, io[s], drv[s], tol)
             _cmp(out, "spec", "maverage.%s vs mean of last size samples" % s, io[s], drv["spec"], tol)
-            _cmp(out, "spec", "maverage.%s vs indexed closed form" % s, io[s], drv["closed"], tol)
+            if "closed" in drv:      # the (cubic) indexed form is evaluated on short inputs only
+                _cmp(out, "spec", "maverage.%s vs indexed closed form" % s, io[s], drv["closed"], tol)
     elif e == "accumulate":
         for s, m in (("func", "func"), ("it", "it"), ("default", "it"), ("z", "z")):
             t = tol if s == "z" else 0
@@ -528,11 +881,35 @@ def nontrivial(c, io):
     return True
 
 
+def _len_bucket(n):
+    """input-length buckets; the lengths right at a power of two have buckets of their own"""
+    if n <= 1:
+        return str(n)
+    if n <= 12:
+        return "2-12"
+    if n <= LONG:
+        return "13-64"
+    lo = LONG + 1
+    for k in (8, 10, 12, 13, 14, 16):
+        p = 2 ** k
+        if n < p - 1:
+            return "%d-%d" % (lo, p - 2)
+        if n <= p + 1:
+            return "%d-%d (2^%d-1..2^%d+1)" % (p - 1, p + 1, k, k)
+        lo = p + 2
+    return "%d+" % lo
+
+
 def tally(eng, c, io):
     e = c["entry"]
     eng.count("entry", e)
     n = len(c["xs"])
-    eng.count("len", "0" if n == 0 else "1" if n == 1 else "2-12" if n <= 12 else "13+")
+    eng.count("len", _len_bucket(n))
+    if n > LONG:
+        eng.count("long_run_len", "%s:%s" % (e, _len_bucket(n)))
+        eng.count("long_run_shape", "%s:%s" % (e, c.get("stream", "long:other")[5:]))
+        if e in ("maverage", "amdf"):
+            eng.count("long_run_size", "%s:size=%s" % (e, c["size"] if _pow2(c["size"]) else "non-pow2"))
     if e in ("maverage", "amdf", "accumulate", "envelope"):
         eng.count("regime", e + (":exact" if exact_regime(c) else ":float"))
     if e in ("maverage", "amdf"):
@@ -549,9 +926,9 @@ def tally(eng, c, io):
         if lo is not None and hi is not None:
             combo += ":low>high" if dec(lo) > dec(hi) else ":low=high" if dec(lo) == dec(hi) else ""
         eng.count("clip_limits", combo + (":default-args" if c.get("route") == "default" else ""))
-        out = _list(io, "out")
-        if out is not None:
-            xs = decl(c["xs"])
+        out = decl(io["out"][:4100]) if isinstance(io.get("out"), list) else None
+        if out is not None:          # (per-sample statistics of a long input: its first 4100 samples)
+            xs = decl(c["xs"][:4100])
             eng.count("clip_branch", "clipped-high", sum(1 for x, y in zip(xs, out) if y < x))
             eng.count("clip_branch", "clipped-low", sum(1 for x, y in zip(xs, out) if y > x))
             eng.count("clip_branch", "untouched", sum(1 for x, y in zip(xs, out) if y == x))
@@ -563,8 +940,8 @@ def tally(eng, c, io):
         h, fs = dec(c["hysteresis"]), dec(c["first_sign"])
         eng.count("zcross_hysteresis", "h=0" if h == 0 else "h>0" if h > 0 else "h<0 (model only)")
         eng.count("zcross_first_sign", "0" if fs == 0 else "+" if fs > 0 else "-")
-        xs = decl(c["xs"])
-        out = _list(io, "out")
+        xs = decl(c["xs"][:4100])
+        out = io["out"] if isinstance(io.get("out"), list) else None
         if out is not None:
             k = sum(out)
             eng.count("zcross_crossings", k if k <= 3 else "4+")
@@ -575,7 +952,7 @@ def tally(eng, c, io):
             eng.count("zcross_samples", "inside band", sum(1 for x in xs if abs(x) < h))
     if e == "unwrap":
         md, st = dec(c["max_delta"]), dec(c["step"])
-        xs = decl(c["xs"])
+        xs = decl(c["xs"][:4100])            # (jump statistics of a long input: its first 4100 samples)
         big = [d for d in (b - a for a, b in zip(xs, xs[1:])) if abs(d) > md]
         eng.count("unwrap_jumps", "jumps>max_delta", len(big))
         eng.count("unwrap_jumps", "jumps<=max_delta", max(0, len(xs) - 1 - len(big)))
@@ -583,9 +960,8 @@ def tally(eng, c, io):
         eng.count("unwrap_jumps", "half-step tie", sum(1 for d in big if (d % st) * 2 == st))
         eng.count("unwrap_jumps", "jump multiple of step", sum(1 for d in big if d % st == 0))
         eng.count("unwrap_maxdelta", "md<step/2" if md < st / 2 else "md=step/2" if md == st / 2 else "md>step/2")
-        out = _list(io, "out")
-        if out is not None:
-            eng.count("unwrap_effect", "changed" if out != xs else "identity")
+        if isinstance(io.get("out"), list):
+            eng.count("unwrap_effect", "changed" if io["out"] != c["xs"] else "identity")
     if c.get("ints"):
         eng.count("input_kind", e + ":int")
     elif c.get("floats"):
@@ -632,10 +1008,97 @@ def neighbours(c):
     return [d for d in _neighbours(c) if _in_domain(d)]
 
 
-def _shrink(c):
+_DRIVER = None
+_CUT = set()          # input lengths already cut right behind the first wrong output
+
+
+def _first_bad_output(c):
+    """position of the first output on which the impl and the Lean side disagree (one extra evaluation, done
+    while shrinking only): every tool is causal, so the input can be cut right behind it"""
+    global _DIFF_AT, _DRIVER
+    if len(c["xs"]) in _CUT:
+        return len(c["xs"]) - 1
+    try:
+        if _DRIVER is None:
+            _DRIVER = common.Driver()
+        io = impl(c)
+        drv = _DRIVER.batch([dict(request(c), id=ID)])[0]
+        _DIFF_AT = []
+        compare(c, io, drv.get("ok", drv))
+        if _DIFF_AT:
+            _CUT.add(min(_DIFF_AT) + 1)
+        return min(_DIFF_AT) if _DIFF_AT else None
+    except Exception:       # noqa  (no shortcut then; the engine evaluates the ordinary candidates)
+        return None
+    finally:
+        _DIFF_AT = None
+
+
+def _shrink_long(c):
+    """inputs of more than LONG samples.  A failure that needs many iterations keeps its length, and every
+    candidate costs a long run, so there are few candidates per round:
+    (1) cut the input right behind the first wrong output (found by one evaluation here), or by halves;
+    (2) simplify all values at once (0/1, signs, integers), length kept;
+    (3) zero out aligned blocks, coarse to fine (one granularity per round on very long inputs), then single
+        samples.
+    Yields (candidate, params_too): the parameters are simplified at the start and at the end only."""
     xs = c["xs"]
     n = len(xs)
-    if n:
+    vals = decl(xs)
+    simple = all(v in (-1, 0, 1) for v in vals)
+    nz = [i for i, v in enumerate(vals) if v != 0]
+    i0 = _first_bad_output(c)
+    if i0 is not None and i0 + 1 < n:               # (1)
+        yield dict(c, xs=xs[:i0 + 1])
+        if i0 + 2 < n:
+            yield dict(c, xs=xs[:i0 + 2])
+    elif i0 is None:
+        for k in range(n.bit_length() - 1, -1, -1):
+            if (1 << k) < n:
+                yield dict(c, xs=xs[:n - (1 << k)])
+    for k in ([n // 2, n // 4, 1] if not simple else [1]):
+        if 0 < k < n:
+            yield dict(c, xs=xs[k:])
+    if not simple:
+        for f in (lambda v: F(1) if v else F(0),    # (2)
+                  lambda v: F((v > 0) - (v < 0)),
+                  lambda v: F(int(v)),
+                  lambda v: F(int(v / 2)),
+                  abs):
+            ys = [enc(f(v)) for v in vals]
+            if ys != xs:
+                yield dict(c, xs=ys)
+    g, levels = 1 << (n.bit_length() - 1), 0        # (3) zero blocks that still hold something
+    max_levels = 1 if n > 8200 else 2 if not simple else 4
+    while g >= 1 and nz and levels < max_levels:
+        seen = []
+        for i in nz:
+            if i // g not in seen:
+                seen.append(i // g)
+        cand = [b for b in seen if not (b * g <= nz[0] and nz[-1] < (b + 1) * g)]
+        if cand:
+            levels += 1
+            for b in cand[:2] + cand[-2:] if len(cand) > 4 else cand:
+                lo, hi = b * g, min(n, (b + 1) * g)
+                yield dict(c, xs=xs[:lo] + [0] * (hi - lo) + xs[hi:])
+        g >>= 1
+    if len(nz) <= 8:
+        for i in nz:
+            for sv in _simpler(xs[i])[:2]:
+                yield dict(c, xs=xs[:i] + [sv] + xs[i + 1:])
+
+
+def _shrink(c):
+    if "stream" in c:            # the generator's tag describes the unshrunk input only
+        c = {k: v for k, v in c.items() if k != "stream"}
+    xs = c["xs"]
+    n = len(xs)
+    if n > LONG:
+        for d in _shrink_long(c):
+            yield d
+        if n > 8200 and 2 < sum(1 for v in xs if v != 0) and all(v in (-1, 0, 1) for v in xs):
+            return           # very long input being zeroed block by block: the parameters wait
+    elif n:
         yield dict(c, xs=xs[:-1])
         yield dict(c, xs=xs[1:])
         if n > 3:
